@@ -13,7 +13,7 @@ STATEMENT = ("for every date t in [1900, 2300): dt(t), dt of its date, of its (y
              "ymd() drops the time of day; an unambiguous (day > 12) string in the other dialect raises ValueError; dt(y,m,d) with month or "
              "day out of range is the first day of the normalised month plus d-1 days")
 LEAN_FILES = ['Basic', 'Greg', 'GenTypes', 'Bump', 'DateParse', 'NpDate', 'DateParseDriver', 'PygGen', 'Sweep', 'GregLemmas', 'GregPeriod', 'BumpLemmas',
-              'MonthLemmas', 'TokenLemmas', 'DateLemmas', 'DateStrLemmas', 'DateTextLemmas', 'NpDateLemmas', 'MonthNameLemmas', 'MonthNameStrLemmas', 'SqueezeLemmas', 'AmbiguityLemmas', 'C04']
+              'MonthLemmas', 'TokenLemmas', 'DateLemmas', 'DateStrLemmas', 'DateTextLemmas', 'NpDateLemmas', 'MonthNameLemmas', 'MonthNameStrLemmas', 'SqueezeLemmas', 'AmbiguityLemmas', 'SlashesLemmas', 'C04']
 GENERATED = ['PygGen.Ym', 'PygGen.Num2dt', 'PygGen.Tables', 'PygGen.Np2dt', 'PygGen.DuMonths']
 RULE = ('distinct protocol lines (one spelling of one instant, or one (y, m, d) overflow triple, or one translator-grid integer) on which '
         'dt()/ymd()/dt2str() returned a value')
@@ -22,7 +22,7 @@ TRUSTED = ['harness/pv/translate.py (python ast -> Lean, validated each run on t
            'correspondence harness (pv.engine, pv.proto) and generators of pv.props.c04',
            'Lean driver parser/printer (PygModel/Basic.lean, DateParseDriver.lean)']
 ASSUMPTIONS = ['CPython datetime constructors / ordinals behave as PygModel/Greg.lean (sampled on every line)',
-               'dateutil.parser.parse reads a<sep>b<sep>yyyy month-first unless a > 12, and ISO / yyyymmdd / month-name spellings as written '
+               'dateutil.parser.parse reads a/b/yyyy (all it gets for a numeric triple since fix C04-D4: uk2dt / us2dt rewrite the separators) month-first unless a > 12, and ISO / yyyymmdd / month-name spellings as written '
                '(month names looked up, lower-cased, in its own MONTHS table, which is lifted into the generated Gen.duMonths); '
                'this is assumed by the model (duResolve, parseTokens) and sampled by correspondence',
                'numpy: x.astype(datetime.datetime) gives a date for Y/M/W/D, a datetime for h..us, an int for ns or outside year 1..9999; '
@@ -92,10 +92,13 @@ def L(op, *args):
     return '(dt %s%s)' % (op, ''.join(' ' + a for a in args))
 
 
-def dialect_str(t, uk, sep, pad, with_time):
+def dialect_str(t, uk, sep, pad, with_time, sep2=None):
+    """d<sep>m<sep2>yyyy (UK) / m<sep>d<sep2>yyyy (US); sep2 defaults to sep.  The quantifier says "separators in {-,/,.,space}":
+    each of the two separators is drawn from the set, so all 16 pairs are generated (C04-D4: dateutil alone does not read the six
+    pairs with exactly one '.' as a date)"""
     a, b = (t.day, t.month) if uk else (t.month, t.day)
     f = '%02d' if pad else '%d'
-    s = (f + sep + f + sep + '%04d') % (a, b, t.year)
+    s = (f + sep + f + (sep if sep2 is None else sep2) + '%04d') % (a, b, t.year)
     if with_time:
         s += ' %02d:%02d:%02d' % (t.hour, t.minute, t.second)
         if t.microsecond:                       # 'dd/mm/yyyy hh:mm:ss.ffffff' carries the instant to the microsecond
@@ -107,16 +110,16 @@ WS = [' ', '  ', '\t', ' \n', '\r\n ']
 
 
 def padsep_str(rng, t, uk, with_time):
-    """d<sep>m<sep>yyyy with blanks around the separators ('13 / 01 / 2000', '13 -01- 2000', '13  01  2000'): still a day-month string
-    whose separators are those of the quantifier; dateutil reads it like the tight form (avoided: a blank only in front of the year
-    after two equal tight separators, '01/02/ 2000', which dateutil rejects)"""
+    """d<sep>m<sep>yyyy with blanks around the separators ('13 / 01 / 2000', '13 -01- 2000', '13  01  2000', '13 . 01 .2000',
+    '13/01/ 2000'): still a day-month string whose separators are those of the quantifier.  Every separator of the set, every pair,
+    every placement of the blanks (C04-D4: dateutil alone does not read '01 .02.2000' or '01/02/ 2000' as the tight text)"""
     a, b = (t.day, t.month) if uk else (t.month, t.day)
     f = '%02d' if rng.random() < 0.5 else '%d'
-    s1, s2 = rng.choice('/- '), rng.choice('/- ')
-    pads = ['', ' ', '  ']
+    s1, s2 = rng.choice('/-. '), rng.choice('/-. ')
+    pads = ['', ' ', '  '] if rng.random() < 0.9 else ['', ' ', '\t', ' \t']     # the regex says \s*: tabs now and then
     while True:
         l1, r1, l2, r2 = (rng.choice(pads) for _ in range(4))
-        if (l1 or r1 or l2 or r2) and not (r2 and not l2):
+        if l1 or r1 or l2 or r2:
             break
     s = f % a + l1 + s1 + r1 + f % b + l2 + s2 + r2 + '%04d' % t.year
     if with_time:
@@ -225,6 +228,13 @@ def spellings(t, rng, full):
         us_ = '-us' if wt and not whole else ''
         out.append(('uk-str' + us_, L('str', 'uk', s_(dialect_str(t, True, sep, pad, wt))), exp))
         out.append(('us-str' + us_, L('str', 'us', s_(dialect_str(t, False, sep, pad, wt))), exp))
+    # two DIFFERENT separators (each from the quantifier's set): 12 pairs, six of them with exactly one '.'
+    pairs = [(a, b) for a in SEPS for b in SEPS if a != b]
+    for s1, s2 in (pairs if full else rng.sample(pairs, 2) + [rng.choice([p for p in pairs if (p[0] == '.') != (p[1] == '.')])]):
+        pad, wt = rng.random() < 0.5, rng.random() < 0.4
+        exp = t if wt else day
+        out.append(('uk-str-mixsep', L('str', 'uk', s_(dialect_str(t, True, s1, pad, wt, s2))), exp))
+        out.append(('us-str-mixsep', L('str', 'us', s_(dialect_str(t, False, s1, pad, wt, s2))), exp))
     # the same spellings with white space around the text
     sep, pad, wt = rng.choice(SEPS), rng.random() < 0.5, rng.random() < 0.3
     exp = t if wt else day
@@ -279,6 +289,9 @@ def generate(rng, tier):
             f = (lambda x: wrap_ws(rng, x)) if rng.random() < 0.6 else (lambda x: x)
             yield dict(tag='uk-str-read-as-us-reject-ws', lines=[L('str', 'us', s_(f(dialect_str(t, True, sep, pad, wt))))], expect='err ValueError')
             yield dict(tag='us-str-read-as-uk-reject-ws', lines=[L('str', 'uk', s_(f(dialect_str(t, False, sep, pad, wt))))], expect='err ValueError')
+            s1, s2 = rng.choice(SEPS), rng.choice(SEPS)
+            yield dict(tag='uk-str-read-as-us-reject-mixsep', lines=[L('str', 'us', s_(dialect_str(t, True, s1, pad, wt, s2)))], expect='err ValueError')
+            yield dict(tag='us-str-read-as-uk-reject-mixsep', lines=[L('str', 'uk', s_(dialect_str(t, False, s1, pad, wt, s2)))], expect='err ValueError')
             yield dict(tag='uk-str-read-as-us-reject-padsep', lines=[L('str', 'us', s_(padsep_str(rng, t, True, wt)))], expect='err ValueError')
             yield dict(tag='us-str-read-as-uk-reject-padsep', lines=[L('str', 'uk', s_(padsep_str(rng, t, False, wt)))], expect='err ValueError')
     # ---- np2dt on raw datetime64 values (value, unit): every unit, the whole datetime range 0001..9999, the ends of the range, and
@@ -338,7 +351,7 @@ def generate(rng, tier):
             yield dict(tag='all-days-yyyymmdd', lines=[L('num', 'I:%d' % (t.year * 10000 + t.month * 100 + t.day))], expect=enc(t))
             yield dict(tag='all-days-ordinal', lines=[L('num', 'I:%d' % t.toordinal())], expect=enc(t))
             uk = rng.random() < 0.5
-            yield dict(tag='all-days-str', lines=[L('str', 'uk' if uk else 'us', s_(dialect_str(t, uk, rng.choice(SEPS), rng.random() < 0.5, False)))], expect=enc(t))
+            yield dict(tag='all-days-str', lines=[L('str', 'uk' if uk else 'us', s_(dialect_str(t, uk, rng.choice(SEPS), rng.random() < 0.5, False, rng.choice(SEPS))))], expect=enc(t))
             t += TD(1)
 
 
@@ -478,6 +491,10 @@ def laws(rng, tier, ctx):
         checks.append(('law-uk-ws', L('str', 'uk', s_(ukd)), safe(dt, ukd), day))
         checks.append(('law-us-ws', L('str', 'us', s_(usd)), safe(dt, usd, dialect='us'), day))
         checks.append(('law-ymd-uk', L('ymd/str', 'uk', s_(uku)), safe(ymd, uku), day))
+        m1, m2 = rng.choice(SEPS), rng.choice(SEPS)
+        ukm, usm = dialect_str(tu, True, m1, pad, True, m2), dialect_str(tu, False, m1, pad, True, m2)
+        checks.append(('law-uk-mixsep', L('str', 'uk', s_(ukm)), safe(dt, ukm), tu))
+        checks.append(('law-us-mixsep', L('str', 'us', s_(usm)), safe(dt, usm, dialect='us'), tu))
         ukp, usp = padsep_str(rng, tu, True, True), padsep_str(rng, tu, False, True)
         checks.append(('law-uk-padsep', L('str', 'uk', s_(ukp)), safe(dt, ukp), tu))
         checks.append(('law-us-padsep', L('str', 'us', s_(usp)), safe(dt, usp, dialect='us'), tu))
@@ -497,6 +514,8 @@ def laws(rng, tier, ctx):
             checks.append(('law-us-rejects-uk', L('str', 'us', s_(ukd)), safe(dt, ukd, dialect='us'), 'raise ValueError'))
             checks.append(('law-uk-rejects-us', L('str', 'uk', s_(usu)), safe(dt, usu), 'raise ValueError'))
             checks.append(('law-us-rejects-uk', L('str', 'us', s_(uku)), safe(dt, uku, dialect='us'), 'raise ValueError'))
+            checks.append(('law-uk-rejects-us', L('str', 'uk', s_(usm)), safe(dt, usm), 'raise ValueError'))
+            checks.append(('law-us-rejects-uk', L('str', 'us', s_(ukm)), safe(dt, ukm, dialect='us'), 'raise ValueError'))
             checks.append(('law-uk-rejects-us', L('str', 'uk', s_(usp)), safe(dt, usp), 'raise ValueError'))
             checks.append(('law-us-rejects-uk', L('str', 'us', s_(ukp)), safe(dt, ukp, dialect='us'), 'raise ValueError'))
         # two-digit years: the text does not carry the century (dateutil picks the one within 50 years of TODAY), so "equals t" is not
